@@ -105,7 +105,10 @@ class OPA(BaseModelSingleSet):
         """Compute the time-lage covariance matrix C(tau) of the data X."""
         sample_name = self.preprocessor.sample_name
         X0 = X.copy(deep=True)
-        Xtau = X.shift({sample_name: -tau}).dropna(sample_name)
+        # Remove the samples that are shifted in at the end (by position, so that
+        # no computation is triggered for dask arrays)
+        n_valid = X[sample_name].size - tau
+        Xtau = X.shift({sample_name: -tau}).isel({sample_name: slice(None, n_valid)})
 
         X0 = X0.rename({"mode": "feature1"})
         Xtau = Xtau.rename({"mode": "feature2"})
